@@ -97,8 +97,11 @@ class Dim:
                 return d1 if d1 == d2 else None
             if nm == "max" and len(a) == 1:
                 return self.elem(a[0], fn)
-            if nm == "unwrap" and len(a) == 1:
+            if nm in ("unwrap", "expect", "unwrap_unchecked") and len(a) >= 1:
                 return self.dim(a[0], fn)
+            if nm in ("checked_add", "checked_sub", "saturating_add", "wrapping_add", "wrapping_sub") and len(a) == 2:
+                # the checked spelling of `x + 1` / `x - 1`
+                return self._dim(("bin", "Add" if "add" in nm else "Sub", a[0], a[1]), fn)
             if nm == "unwrap_or" and len(a) == 2:
                 return self.dim(a[0], fn)
             if t[1].local or getattr(t[1], "res_local", False):
